@@ -7,18 +7,22 @@ pass-through).  Specification: `S.Http.okResp`.  All theorems quantify over ever
 `Lemmas.Http.validStatus_range`), every header list and body (unbounded lists; induction in
 `Lemmas.Http.appendAll_spec`), every shell error, each expectation.
 
-The pinned tree violates the property in three ways (KNOWN_FINDINGS.txt), each modelled as it is:
+The pinned tree violates the property in four ways (KNOWN_FINDINGS.txt), each modelled as it is:
   * `invalid-status-panics`   — `Response::new(status)` panics outside http-types' table (`invalid_status_exact`);
   * `non-ascii-header-panics` — `append_header` panics on a non-ASCII name or value (`non_ascii_header_exact`);
   * `content-type-injected`   — `set_body` puts `content-type: application/octet-stream` in front of the shell's headers
-                                (`content_type_injected_exact`).
+                                (`content_type_injected_exact`);
+  * `utf8-bom-kept-under-other-label` — `expect_string` under a non-UTF-8 label keeps a UTF-8 byte order mark that the
+                                decoder removed (`utf8_bom_kept_exact`; region `bomQuirk`).
 So the full statements `C15_no_panic`, `C15_headers_same`, `C15_full` are false (`…_false`), `C15_partial` is the
 strongest true restriction, `C15_sound_nonfinding` is soundness against the unweakened specification outside the defect
-regions, and the three `…_exact` theorems show that inside them the model produces exactly the keyed defect.
+regions, and the four `…_exact` theorems show that inside them the model produces exactly the keyed defect.
 -/
 import CruxVerif.Lemmas.Http
+import CruxVerif.Lemmas.Utf8
 namespace Props.C15
 open M.Http S.Http Lemmas.Http
+set_option linter.unusedSimpArgs false
 
 theorem invalid_status_panics (r : HttpResponse) (e : Expect) (f : Facts) (hv : isValidStatus r.status = false) :
     outcome (.ok r) e f = .panic .status := by
@@ -74,6 +78,17 @@ theorem expect_string_utf8 (f : Facts) (s : Nat) (hs : List (Bytes × Bytes)) (b
   simp only [applyExpect, decodeString, hd]
   by_cases hvu : validUtf8 body = true <;> simp [hvu]
 
+/-- … where "well-formed UTF-8" is the standard's notion, not the model's automaton: under the UTF-8 decoder the app gets
+    the body back as a string **iff** the body is the UTF-8 encoding of some sequence of Unicode scalar values (no
+    surrogates, nothing above U+10FFFF, no overlong forms); it then gets exactly those bytes. -/
+theorem expect_string_utf8_standard (f : Facts) (s : Nat) (hs : List (Bytes × Bytes)) (body : Bytes)
+    (hd : decoderFor f body = .utf8) :
+    ((∃ cs, cs.all isScalar = true ∧ encodeUtf8 cs = body) → applyExpect .string f s hs body = .success s hs body) ∧
+    ((¬ ∃ cs, cs.all isScalar = true ∧ encodeUtf8 cs = body) →
+        applyExpect .string f s hs body = .error (decodeError utf8Name)) := by
+  rw [expect_string_utf8 f s hs body hd, ← Lemmas.Utf8.validUtf8_iff]
+  constructor <;> intro h <;> simp [h]
+
 /-- `expect_json`, parameterised by the JSON decoder's result for the body. -/
 theorem expect_json_param (f : Facts) (s : Nat) (hs : List (Bytes × Bytes)) (body : Bytes) :
     (∀ j, f.jd = .ok j → applyExpect .json f s hs body = .success s hs j) ∧
@@ -108,10 +123,15 @@ theorem one_outcome (res : HttpResult) (e : Expect) (f : Facts) :
       exact ⟨r, rfl, hv', invalid_status_panics r e f hv'⟩
 
 
-/-- the model's body expectation delivers what the specification's conforming decoder demands -/
+/-- Region of the fourth defect (`utf8-bom-kept-under-other-label`): `expect_string`, a supported charset label other
+    than UTF-8, and a body that starts with the UTF-8 byte order mark EF BB BF. -/
+def bomQuirk (e : Expect) (f : Facts) (body : Bytes) : Bool := e == .string && f.enc == .other && bom8 body
+
+/-- outside that region the model's body expectation delivers what the specification's conforming decoder demands -/
 theorem applyExpect_conforms (hdrs : List (Bytes × Bytes) → List (Bytes × Bytes) → Bool)
     (r : HttpResponse) (e : Expect) (f : Facts) (hs : List (Bytes × Bytes))
-    (h1 : 100 ≤ r.status) (h2 : r.status < 400) (hh : hdrs r.headers hs = true) :
+    (h1 : 100 ≤ r.status) (h2 : r.status < 400) (hh : hdrs r.headers hs = true)
+    (hq : bomQuirk e f r.body = false) :
     okRespWith hdrs (.ok r) e f (applyExpect e f r.status hs r.body) = true := by
   have hn : ¬ (400 ≤ r.status) := by omega
   simp only [okRespWith, hn, h1, h2, decide_true, decide_false, Bool.false_and, Bool.and_self,
@@ -136,7 +156,7 @@ theorem applyExpect_conforms (hdrs : List (Bytes × Bytes) → List (Bytes × By
         · by_cases hvu : validUtf8 r.body = true <;> simp [h8, h16, hvu, expectedDecoded.utf8, hh]
     | other =>
       by_cases h8 : bom8 r.body = true
-      · by_cases hvu : validUtf8 r.body = true <;> simp [h8, hvu, expectedDecoded.utf8, hh]
+      · simp [bomQuirk, henc, h8] at hq
       · by_cases h16 : bom16 r.body = true
         · simp only [h8, h16, if_true, Bool.false_eq_true, if_false]
           simp only [opaqueDecode]
@@ -155,7 +175,8 @@ def convertible (res : HttpResult) : Prop :=
     accepted by the specification *modulo the injected content type*: classification, status, body, decoding, error
     pass-through and every header value are as specified; the only deviation is one extra leading
     `content-type: application/octet-stream` on successes. -/
-theorem C15_partial (res : HttpResult) (e : Expect) (f : Facts) (hc : convertible res) :
+theorem C15_partial (res : HttpResult) (e : Expect) (f : Facts) (hc : convertible res)
+    (hq : ∀ r, res = .ok r → bomQuirk e f r.body = false) :
     okRespModInjection res e f (outcome res e f) = true := by
   cases res with
   | err err => simp [okRespModInjection, okRespWith, outcome]
@@ -166,7 +187,7 @@ theorem C15_partial (res : HttpResult) (e : Expect) (f : Facts) (hc : convertibl
     by_cases hlt : r.status < 400
     · obtain ⟨hs, h, hval⟩ := h1 hlt
       rw [h]
-      exact applyExpect_conforms _ r e f hs hr.1 hlt (sameHeadersModInjection_of _ _ hval)
+      exact applyExpect_conforms _ r e f hs hr.1 hlt (sameHeadersModInjection_of _ _ hval) (hq r rfl)
     · have hge : 400 ≤ r.status := by omega
       have : r.status < 600 := by omega
       rw [h2 hge]
@@ -175,9 +196,10 @@ theorem C15_partial (res : HttpResult) (e : Expect) (f : Facts) (hc : convertibl
 /-- Outside the success class nothing deviates: errors (HTTP errors, decode errors, shell errors) satisfy the full
     specification. -/
 theorem C15_sound_nonfinding (res : HttpResult) (e : Expect) (f : Facts) (hc : convertible res)
+    (hq : ∀ r, res = .ok r → bomQuirk e f r.body = false)
     (hns : ∀ s hs b, outcome res e f ≠ .success s hs b) :
     okResp res e f (outcome res e f) = true := by
-  have h := C15_partial res e f hc
+  have h := C15_partial res e f hc hq
   unfold okRespModInjection at h
   unfold okResp
   cases ho : outcome res e f with
@@ -221,7 +243,7 @@ theorem non_ascii_header_exact (r : HttpResponse) (e : Expect) (f : Facts) (hv :
     leading `content-type: application/octet-stream`; the specification rejects exactly that, with this key, and
     everything else about the outcome is as specified (`C15_partial`). -/
 theorem content_type_injected_exact (r : HttpResponse) (e : Expect) (f : Facts) (hv : isValidStatus r.status = true)
-    (ha : asciiHeaders r.headers = true) (s : Nat) (hs : List (Bytes × Bytes)) (b : Bytes)
+    (ha : asciiHeaders r.headers = true) (hq : bomQuirk e f r.body = false) (s : Nat) (hs : List (Bytes × Bytes)) (b : Bytes)
     (ho : outcome (.ok r) e f = .success s hs b) :
     s = r.status ∧ 100 ≤ s ∧ s < 400 ∧
     valuesFor hs ctName = octetStream :: valuesFor r.headers ctName ∧
@@ -249,11 +271,42 @@ theorem content_type_injected_exact (r : HttpResponse) (e : Expect) (f : Facts) 
     okRespWith_success_false _ r e f _ _ _ hr.1 hlt (sameHeaders_false_of_injected _ _ hct)
   have hmod : okRespModInjection (.ok r) e f (.success r.status hs b) = true := by
     have := C15_partial (.ok r) e f (by intro r' hr'; injection hr' with hr'; subst hr'; exact ⟨hv, ha⟩)
+      (by intro r' hr'; injection hr' with hr'; subst hr'; exact hq)
     rwa [ho] at this
   refine ⟨rfl, hr.1, hlt, hct, hother, by rw [ho]; exact hok, ?_⟩
   rw [ho]
   unfold rejectKeyResp
   simp [hok, hmod]
+
+/-- Finding `utf8-bom-kept-under-other-label`: under a supported non-UTF-8 label a body that starts with the UTF-8 byte
+    order mark and is well-formed UTF-8 is handed over *whole* (mark included) — `decode_body` returns the original bytes
+    whenever encoding_rs borrowed its output, although the decoder's output has the mark removed.  Whenever the conforming
+    decoder's result `x` differs from the body, the specification rejects, with exactly this key. -/
+theorem utf8_bom_kept_exact (r : HttpResponse) (f : Facts) (hv : isValidStatus r.status = true)
+    (ha : asciiHeaders r.headers = true) (hlt : r.status < 400) (henc : f.enc = .other)
+    (h8 : bom8 r.body = true) (hvu : validUtf8 r.body = true) :
+    ∃ hs, outcome (.ok r) .string f = .success r.status hs r.body ∧
+      ∀ x, f.sd = .ok x → x ≠ r.body →
+        okResp (.ok r) .string f (outcome (.ok r) .string f) = false ∧
+        rejectKeyResp (.ok r) .string f (outcome (.ok r) .string f) = "utf8-bom-kept-under-other-label" := by
+  obtain ⟨hs, h, hval⟩ := (classify_valid r .string f hv ha).1 hlt
+  have hr := validStatus_range r.status hv
+  have ho : outcome (.ok r) .string f = .success r.status hs r.body := by
+    rw [h]; simp [applyExpect, decodeString, decoderFor, henc, h8, hvu]
+  refine ⟨hs, ho, ?_⟩
+  intro x hx hne
+  have hn : ¬ (400 ≤ r.status) := by omega
+  have hne' : (r.body == x) = false := by simpa using fun h => hne h.symm
+  have hbad : ∀ hdrs, okRespWith hdrs (.ok r) .string f (.success r.status hs r.body) = false := by
+    intro hdrs
+    simp [okRespWith, hn, hr.1, hlt, expectedDecoded, henc, hx, expectedDecoded.dec, hne']
+  have hmod := sameHeadersModInjection_of _ _ hval
+  rw [ho]
+  refine ⟨hbad _, ?_⟩
+  unfold rejectKeyResp
+  have h1 : okResp (.ok r) .string f (.success r.status hs r.body) = false := hbad _
+  have h2 : okRespModInjection (.ok r) .string f (.success r.status hs r.body) = false := hbad _
+  simp [h1, h2, hn, hmod, henc, h8]
 
 /-! ### the full statements, and why they are false in the pinned tree -/
 
@@ -303,6 +356,9 @@ example : outcome (.ok ⟨200, [], [195, 40]⟩) .string noFacts
     = .error (.http 500 (ascii "could not decode body as UTF-8") none) := by decide
 example : outcome (.ok ⟨200, [], [195, 169]⟩) .string noFacts
     = .success 200 [(ascii "content-type", ascii "application/octet-stream")] [195, 169] := by decide
+/-- charset=iso-8859-1, body EF BB BF 68 69: the app gets U+FEFF "hi", encoding_rs' decode yields "hi" -/
+example : outcome (.ok ⟨200, [], [239, 187, 191, 104, 105]⟩) .string ⟨some (ascii "iso-8859-1"), .other, .ok (ascii "hi"), .na⟩
+    = .success 200 [(ascii "content-type", ascii "application/octet-stream")] [239, 187, 191, 104, 105] := by decide
 example : validUtf8 [237, 160, 128] = false ∧ validUtf8 [244, 144, 128, 128] = false ∧ validUtf8 [192, 175] = false ∧
     validUtf8 [240, 159, 166, 128] = true ∧ validUtf8 [239, 187, 191, 104] = true ∧ validUtf8 [97, 226, 130] = false := by
   decide
